@@ -15,6 +15,7 @@ from common import case_rng, parse_reply
 import framework, leandrv
 from framework import Finding
 import c12_util as U
+import c12x as X
 
 PID = "C12"
 MODULE = "MysticVerif.Props.C12"
@@ -39,12 +40,28 @@ THEOREMS = [
     "MysticVerif.C12.merge_inclusive_partial",
     "MysticVerif.C12.merge_inclusive_drops_witness",
     "MysticVerif.C12.merge_inclusive_ne_witness",
+    "MysticVerif.C12.abs_expand_sound",
+    "MysticVerif.C12.absK_spec",
+    "MysticVerif.C12.signcase_product_sound",
+    "MysticVerif.C12.simplify_validator_sound_ext",
+    "MysticVerif.C12.simplify_validator_sound_abs",
+    "MysticVerif.C12.flip_neg_factor_sound",
+    "MysticVerif.C12.flip_pos_factor_sound",
+    "MysticVerif.C12.flipB_complement",
+    "MysticVerif.C12.comparator_single_token",
+    "MysticVerif.C12.comparator_priority_witness",
+    "MysticVerif.C12.equals_spec",
+    "MysticVerif.C12.testpoint_decides_flip",
+    "MysticVerif.C12.testpoint_on_boundary_witness",
+    "MysticVerif.C12.merge_exclusive_none_iff_partial_witness",
 ]
 
 KF_OPPOSITE = "simplify/absval-merge-inclusive/opposite-bounds-same-text"
 KF_EMPTY = "simplify/equality-comes-back-empty"
 KF_REDUNDANT = "solve/redundant-float-equations/rank-inflated"
 KF_CANCEL = "simplify/test-point-in-binary64/cancelling-huge-coefficients"
+KF_RESTORE = "symbolic/restore-names/more-than-ten-named-variables/index-prefix"
+KF_TRIANGULAR = "solve/redundant-float-equations/not-back-substituted"
 CMP_TEXT = ["<", "<=", ">", ">=", "=", "==", "!="]
 TOL = Fr(1, 10 ** 9)
 MARGIN = Fr(1, 10 ** 6)
@@ -432,7 +449,7 @@ def guarded(fn, *a, **kw):
     old = signal.signal(signal.SIGALRM, onalarm)
     soft, hard = resource.getrlimit(resource.RLIMIT_AS)
     lim = 3 * 2 ** 30
-    signal.alarm(25)
+    signal.alarm(kw.pop("_limit", 25))
     try:
         # soft address-space limit for the duration of the call only (the Lean driver subprocess must not inherit it)
         resource.setrlimit(resource.RLIMIT_AS, (lim if hard == resource.RLIM_INFINITY else min(lim, hard), hard))
@@ -793,6 +810,18 @@ def solved_form_ok(out_items, n):
     return lhs
 
 
+def isolated_vars(out_items, n):
+    """every line is  x_i = (affine), the x_i distinct (they MAY occur on right sides) -> list of i, else None"""
+    lhs = []
+    for it in out_items:
+        L = it[2]
+        nz = [i for i in range(n) if L[i + 1] != 0]
+        if L[0] != 0 or len(nz) != 1 or L[nz[0] + 1] != 1:
+            return None
+        lhs.append(nz[0])
+    return lhs if len(set(lhs)) == len(lhs) else None
+
+
 def post_solve(rec, replies, rng, hist, findings):
     g = rec["gen"]; names = rec["names"]; n = len(names)
     exact = rec["exact"]
@@ -810,13 +839,24 @@ def post_solve(rec, replies, rng, hist, findings):
     fi = [U.eq_form(it) for it in rec["in_items"]]
     # ---- monitor: solved form; points of the returned solved form satisfy the input; dimensions agree
     lhs = solved_form_ok(out_items, n)
-    if lhs is None:
-        findings.append(Finding("monitor", "solve/not-solved-form", "returned text is not a solved form: %r" % (rec["out"],), case))
-        return False
-    tol = 0 if exact else TOL
     rk = U.rank([f[1:] for f in fi])      # (the generated systems are consistent: rank of the coefficient part)
+    tri = False
+    if lhs is None:
+        # F42: with float coefficients and redundant equations sympy reports no solution, mystic falls back to _solve_nonlinear and
+        # returns  x_i = expr  lines that are NOT back-substituted (an isolated variable occurs on another right side).
+        # Strongest variant still true inside the class: the lines have exactly the solutions of the input (certificate below).
+        iso = isolated_vars(out_items, n)
+        if iso is not None and rk < len(fi) and g["kind"] != "int":
+            tri = True
+            hist["solve:known-class:" + KF_TRIANGULAR] = hist.get("solve:known-class:" + KF_TRIANGULAR, 0) + 1
+            findings.append(Finding("monitor", KF_TRIANGULAR, "returned lines are not back-substituted (an isolated variable occurs on a right side): %r" % (rec["out"],), case))
+            lhs = []
+        else:
+            findings.append(Finding("monitor", "solve/not-solved-form", "returned text is not a solved form: %r" % (rec["out"],), case))
+            return False
+    tol = 0 if exact else TOL
     bad = None
-    for _ in range(6):
+    for _ in range(0 if tri else 6):
         pt = [Fr(rng.randint(-20, 20), rng.choice([1, 2, 3])) for _ in range(n)]
         for it, i in zip(out_items, lhs):
             pt[i] = U.f_eval(it[3], pt)
@@ -850,7 +890,10 @@ def post_solve(rec, replies, rng, hist, findings):
             if not acc:
                 findings.append(Finding("correspondence", "solve/certificate-computed-but-rejected", "Lean rejects a certificate the harness computed", dict(case, reply=replies[0])))
         hist["solve:exact:%s" % ("accept" if acc else "no-certificate")] = hist.get("solve:exact:%s" % ("accept" if acc else "no-certificate"), 0) + 1
-        if not rec["cert"] and not bad and rk == len(out_items):
+        if tri and not rec["cert"]:
+            # (for consistent systems mutual linear combination is necessary and sufficient for equal solution sets)
+            findings.append(Finding("monitor", "solve/known-class/other-defect", "beyond the known defect (%s): the returned lines do not have the solutions of the input" % KF_TRIANGULAR, case))
+        elif not rec["cert"] and not bad and rk == len(out_items):
             findings.append(Finding("correspondence", "solve/no-certificate", "no exact certificate exists although the monitor finds no failing point", case))
         if acc and (bad or rk != len(out_items)):
             raise HarnessBug("certificate accepted but the monitor disagrees: %r" % (case,))
@@ -1061,6 +1104,463 @@ def post_bounds(rec, replies, rng, hist, findings):
     return any(fin(v) for v in lo + hi)
 
 
+# ------------------------------------------------------------------ stream: simplifyx (second layer: abs, multi-variable and product
+# divisors, chained / mixed systems, keywords, more than ten variables) -> Lean `validateX`
+XKINDS = ["multidiv", "multidiv", "prod", "prod", "abs", "abs", "abs", "chain", "chain", "kw", "kw", "many", "many"]
+
+
+def gen_simplifyx_case(rng):
+    kind = rng.choice(XKINDS)
+    nk = rng.choice(["int", "int", "dyadic"])
+    kw = {}; mode = None
+    if kind == "multidiv":
+        n = rng.choice([3, 3, 4])
+        variables, names = "x", ["x%d" % i for i in range(n)]
+        lines = [X.gen_multidiv(rng, names, nk)] + [X.gen_lin(rng, names, nk) for _ in range(rng.choice([0, 0, 1, 2]))]
+    elif kind == "prod":
+        n = rng.choice([2, 3, 3, 4])
+        variables, names = "x", ["x%d" % i for i in range(n)]
+        lines = [X.gen_prod(rng, names, nk)] + [X.gen_lin(rng, names, nk) for _ in range(rng.choice([0, 0, 1]))]
+    elif kind == "abs":
+        n = rng.choice([1, 2, 2, 3])
+        base = rng.choice(["x", "x", "y"])
+        variables, names = base, ["%s%d" % (base, i) for i in range(n)]
+        if rng.random() < 0.2:
+            variables = list(names)
+        lines = [X.gen_abs(rng, names, nk)] + [X.gen_lin(rng, names, nk) for _ in range(rng.choice([0, 0, 1, 2]))]
+        if rng.random() < 0.15:
+            lines.append(X.gen_abs(rng, names, nk))
+    elif kind == "chain":
+        n = rng.choice([2, 3, 3, 4, 5])
+        variables, names = gen_names(rng, n)
+        lines = X.gen_chain(rng, names, nk)
+        m = rng.random()
+        if m < 0.25:
+            kw["cycle"] = True
+        elif m < 0.45 and dense_names(variables, names):
+            t = list(names); rng.shuffle(t); kw["target"] = t
+    elif kind == "kw":
+        n = rng.choice([2, 2, 3])
+        variables, names = "x", ["x%d" % i for i in range(n)]
+        k = rng.random()
+        first = X.gen_abs(rng, names, nk) if k < 0.35 else (gen_rational_line(rng, names, nk if nk == "int" else "dyadic", False) if k < 0.7 else X.gen_lin(rng, names, nk, cmp=rng.choice(X.INEQ)))
+        lines = [first] + [X.gen_lin(rng, names, nk) for _ in range(rng.choice([0, 1, 1, 2]))]
+        mode = rng.choice(["all-false", "all-false", "rand", "rand", "target-one", "variables-superset", "cycle"])
+        if mode == "target-one":
+            kw["target"] = [rng.choice(names)]
+        elif mode == "variables-superset":
+            variables = list(names) + ["x%d" % (n + 3), "zz"]
+        elif mode == "cycle":
+            kw["cycle"] = True
+    else:   # many
+        n = rng.choice([11, 12, 13])
+        if rng.random() < 0.4:
+            variables, names = "x", ["x%d" % i for i in range(n)]
+        else:
+            names = list(rng.choice(X.MANY_NAMES))[:n]
+            variables = list(names); n = len(names)
+        lines = []
+        for _ in range(rng.choice([1, 1, 2, 3])):
+            hi = rng.sample(range(10, len(names)), rng.randint(1, min(2, len(names) - 10)))
+            lo = rng.sample([1, 1, 0, 2, 5, 9], rng.randint(0, 2))
+            vs = list(dict.fromkeys(hi + lo)); rng.shuffle(vs)
+            lines.append(X.gen_lin(rng, names, nk, vs))
+        m = rng.random()
+        if m < 0.3:
+            kw["target"] = [names[rng.choice([v for v in range(10, len(names))])]]
+        elif m < 0.4:
+            kw["cycle"] = True
+    return {"kind": kind, "mode": mode, "variables": variables, "names": names, "text": "\n".join(lines),
+            "kinds": [nk] * len(lines), "kw": kw}
+
+
+def _as_cases(out):
+    """what simplify returned -> list of texts (a `None` case = a case without solutions)"""
+    if out is None:
+        return []
+    return [c for c in ([out] if isinstance(out, str) else list(out)) if c is not None]
+
+
+def check_xtranslation(text_lines, items, ctx, rng):
+    tls = [X.XTextLine(t) for t in text_lines]
+    n = ctx.n
+    for pt in U.random_points(n, rng, 5) + U.corner_points(n)[:3]:
+        env = env_of(ctx.names, pt)
+        x = ctx.ext(pt)
+        for t, it in zip(tls, items):
+            if t.holds(env) != X.xitem_holds(it, x):
+                raise HarnessBug("translator (extended) disagrees with the interpreter on %r at %r" % (t.text, pt))
+    return tls
+
+
+def prep_simplifyx(rng, hist, stream_id):
+    import random as _random
+    from mystic import symbolic as S
+    g = gen_simplifyx_case(rng)
+    names = g["names"]
+    kind = g["kind"]
+    in_lines = U.lines_of(g["text"])
+    ctx = X.Ctx(names)
+    try:
+        in_sparse = [X.translate_x(l, ctx) for l in in_lines]
+    except U.OutsideClass as e:
+        raise HarnessBug("generated line outside the class: %r (%s)" % (g["text"], e))
+    seed = common.seed_mystic(rng)
+    kw = dict(g["kw"])
+    if g["mode"] == "rand":
+        kw["rand"] = _random.Random(seed + 1).random
+    tag = "simplifyx:%s" % kind + (":" + g["mode"] if g["mode"] else "")
+    try:
+        out = guarded(S.simplify, g["text"], variables=g["variables"], all=True, **kw)
+    except Exception as exc:
+        key = "%s:raises:%s" % (tag, type(exc).__name__)
+        hist[key] = hist.get(key, 0) + 1
+        return None
+    cases_text = _as_cases(out)
+    rec = {"stream": "simplifyx", "id": stream_id, "gen": g, "in_lines": in_lines, "out": cases_text, "names": names, "lines": [],
+           "ctx": ctx, "tag": tag, "raw_none": out is not None and not isinstance(out, str) and any(c is None for c in out)}
+    if g["mode"] == "all-false":
+        import random, numpy
+        random.seed(seed); numpy.random.seed(seed)
+        try:
+            rec["single"] = ("ok", guarded(S.simplify, g["text"], variables=g["variables"], all=False, **kw))
+        except Exception as exc:
+            rec["single"] = ("raises", type(exc).__name__)
+    rec["exact"] = exact_regime(g["kinds"], g["text"], cases_text)
+    try:
+        rec["out_tls"] = [[U.TextLine(l) for l in U.lines_of(c)] for c in cases_text]
+    except U.OutsideClass:
+        rec["out_tls"] = None
+        return rec
+    try:
+        out_lines = [U.lines_of(c) for c in cases_text]
+        out_sparse = [[X.translate_x(l, ctx) for l in c] for c in out_lines]
+    except U.OutsideClass as e:
+        rec["unparsed"] = str(e)
+        out_sparse = None
+    N = ctx.N
+    rec["N"] = N
+    in_items = [X.densify(it, N) for it in in_sparse]
+    rec["in_items"] = in_items
+    rec["in_tls"] = check_xtranslation(in_lines, in_items, ctx, rng)
+    if out_sparse is None:
+        return rec
+    out_x = [[X.densify(it, N) for it in c] for c in out_sparse]
+    out_items = [[X.plain_line(it) for it in c] for c in out_x]
+    if any(it is None for c in out_items for it in c):
+        rec["unparsed"] = "non-linear output line"
+        return rec
+    for ls, its in zip(out_lines, out_x):
+        check_xtranslation(ls, its, ctx, rng)
+    rec["out_items"] = out_items
+    rec["lines"].append("C12 validatex (inp (%s)) (out (%s))" % (" ".join(X.pxitem(i) for i in in_items),
+                                                                  " ".join(U.plines(c) for c in out_items)))
+    return rec
+
+
+def case_of_x(rec, extra=None):
+    g = rec["gen"]
+    c = {"stream": rec["stream"], "id": rec["id"], "kind": g["kind"], "mode": g["mode"],
+         "call": "simplify(%r, variables=%r, all=True%s)" % (g["text"], g["variables"], "".join(", %s=%r" % kv for kv in g["kw"].items())),
+         "returned": rec["out"], "exact_regime": rec.get("exact"), "requests": rec["lines"]}
+    if extra:
+        c.update(extra)
+    return c
+
+
+def post_simplifyx(rec, replies, rng, hist, findings):
+    g = rec["gen"]; names = rec["names"]; n = len(names); kind = g["kind"]
+    exact = rec["exact"]; tag = rec["tag"]
+    hist[tag] = hist.get(tag, 0) + 1
+    ncases = len(rec["out"])
+    hk = "simplifyx:%s:cases=%d" % (kind, min(ncases, 8))
+    hist[hk] = hist.get(hk, 0) + 1
+    if rec["raw_none"]:
+        hist["simplifyx:None-inside-tuple"] = hist.get("simplifyx:None-inside-tuple", 0) + 1
+    if rec.get("out_tls") is None:
+        findings.append(Finding("monitor", "simplify/unreadable-output", "simplify returned text the interpreter cannot read: %r" % (rec["out"],), case_of_x(rec)))
+        return False
+    vclass = "simplify/not-equivalent/%s/%s" % (kind, "exact" if exact else "toleranced")
+    # names that are not variables of the call in the returned text (mis-restored names)
+    known = None
+    if kind == "many" and not isinstance(g["variables"], str):
+        bad = sorted(set(nm for c in rec["out_tls"] for t in c for node in (t.l, t.r) for nm in _names_in(node) if nm not in names))
+        if bad:
+            known = KF_RESTORE
+            findings.append(Finding("monitor", KF_RESTORE, "the returned text mentions %r, which is not among the variables %r" % (bad, names), case_of_x(rec)))
+            return True
+    in_side = (lambda pt: U.sat_system(rec["in_tls"], env_of(names, pt)), lambda pt: Fr(1))
+    if opposite_pairs(g["text"]) or abs_condition_pairs(g["text"]):
+        # F16: absval merges (inclusive table) the lines AND the sign conditions of the abs terms of every case; two abs terms
+        # with literally the same argument give the conditions `arg >= 0`, `arg <= 0` in the mixed-sign cases, which are deleted
+        hist["simplifyx:known-class:" + KF_OPPOSITE] = hist.get("simplifyx:known-class:" + KF_OPPOSITE, 0) + 1
+        pt, a, b, _ = separating_point(in_side, rec["out_tls"], [], names, rng, exact, budget=40)
+        if pt is not None:
+            findings.append(Finding("monitor", KF_OPPOSITE, "input holds=%r, returned text holds=%r at %s=%s" % (a, b, names, pt_json(pt)),
+                                    case_of_x(rec, {"point": pt_json(pt)})))
+        return False
+    if empty_lines(rec["out"]) > 0:
+        hist["simplifyx:known-class:" + KF_EMPTY] = hist.get("simplifyx:known-class:" + KF_EMPTY, 0) + 1
+        return False
+    # ---- monitor: all=False returns one of the cases of all=True
+    if "single" in rec:
+        st, single = rec["single"]
+        hist["simplifyx:all-false:%s" % (st if st != "ok" else ("None" if single is None else "text"))] = \
+            hist.get("simplifyx:all-false:%s" % (st if st != "ok" else ("None" if single is None else "text")), 0) + 1
+        if st == "ok":
+            want = [frozenset(U.lines_of(c)) for c in rec["out"]]
+            got = None if single is None else frozenset(U.lines_of(single))
+            # (all=False first picks ONE abs / sign case at random; when that case has no solution the answer is None)
+            if (got is None and want and not rec["raw_none"]) or (got is not None and got not in want):
+                findings.append(Finding("monitor", "simplify/all-false/not-one-of-the-cases",
+                                        "simplify(all=False) returned %r, which is none of the cases returned with all=True" % (single,), case_of_x(rec, {"single": single})))
+    # ---- monitor: independent interpreter at sample points
+    lin_items = [ln for c in X.expand_x(rec["in_items"], rec["N"]) for ln in c] if "in_items" in rec else []
+    items_all = lin_items + [it for c in rec.get("out_items", []) for it in c]
+    pt, a, b, tested = separating_point(in_side, rec["out_tls"], items_all, names, rng, exact, budget=30)
+    hist["simplifyx:points"] = hist.get("simplifyx:points", 0) + tested
+    if pt is not None:
+        findings.append(Finding("monitor", vclass, "input holds=%r, returned text holds=%r at %s=%s" % (a, b, names, pt_json(pt)),
+                                case_of_x(rec, {"point": pt_json(pt)})))
+    nontrivial = ncases >= 2 or kind in ("chain", "many")
+    if "unparsed" in rec:
+        hist["simplifyx:%s:out-outside-validator" % kind] = hist.get("simplifyx:%s:out-outside-validator" % kind, 0) + 1
+        return nontrivial
+    r = parse_reply(replies[0])
+    if r[0] != "ok":
+        raise HarnessBug("driver replied %r to %r" % (replies[0], rec["lines"][0]))
+    accept = r[1]["accept"] == "true"
+    N = rec["N"]
+    cin = U.parse_dnf(r[1]["cin"]); cout = U.parse_dnf(r[1]["cout"])
+    in_cases = X.expand_x(rec["in_items"], N)
+    tin = [U.canon_sys(c) for c in in_cases]
+    tout = [U.canon_sys(c) for c in rec["out_items"]]
+    if sorted(map(sorted, cin)) != sorted(map(sorted, tin)) or sorted(map(sorted, cout)) != sorted(map(sorted, tout)) \
+            or accept != U.dnf_equiv(tin, tout):
+        findings.append(Finding("correspondence", "validatorx/python-twin-diverges",
+                                "Lean canonical forms / verdict differ from the python twin", case_of_x(rec, {"reply": replies[0][:400]})))
+    approx = accept or U.dnf_equiv(tin, tout, TOL)
+    vk = "simplifyx:%s:%s:%s" % (kind, "exact" if exact else "toleranced", "accept" if accept else ("approx-accept" if approx else "reject"))
+    hist[vk] = hist.get(vk, 0) + 1
+    if pt is not None:
+        if exact and accept:
+            raise HarnessBug("validatex accepted but %r separates: translator unsound? %r" % (pt, case_of_x(rec)))
+        return nontrivial
+    if exact and not accept:
+        pt, a, b, done = deep_separating(in_side, in_cases, rec["out_tls"], rec["out_items"], names, True)
+        if pt is not None:
+            findings.append(Finding("monitor", vclass, "input holds=%r, returned text holds=%r at %s=%s" % (a, b, names, pt_json(pt[:n])),
+                                    case_of_x(rec, {"point": pt_json(pt[:n]), "validator": replies[0][:300]})))
+        elif done:
+            hist["simplifyx:equivalent-by-complete-search"] = hist.get("simplifyx:equivalent-by-complete-search", 0) + 1
+        elif N > n:
+            # product divisors: the LP works in the linearised space, so an unfinished search is not a verdict
+            hist["simplifyx:prod:reject-unresolved"] = hist.get("simplifyx:prod:reject-unresolved", 0) + 1
+        else:
+            findings.append(Finding("correspondence", "simplifyx/validator-reject/%s" % kind,
+                                    "validatex rejects, no separating point found (search budget exhausted)", case_of_x(rec, {"reply": replies[0][:400]})))
+    return nontrivial
+
+
+def abs_arguments(line):
+    """texts of the top-level abs(...) arguments of one line, as _absval cuts them out (symbolic.py l.496-500)"""
+    out = []
+    i = 0
+    while True:
+        k = line.find("abs(", i)
+        if k < 0:
+            return out
+        depth = 0; j = k + 3
+        while j < len(line):
+            if line[j] == "(":
+                depth += 1
+            elif line[j] == ")":
+                depth -= 1
+                if depth == 0:
+                    break
+            j += 1
+        out.append(line[k + 4:j])
+        i = j + 1
+
+
+def abs_condition_pairs(text):
+    """the sign conditions `arg >= 0` / `arg <= 0` of the abs terms meet an opposite bound with literally the same sides:
+    two abs terms with the same argument text, or an input line `arg <cmp> 0`"""
+    ls = U.lines_of(text)
+    args = [a for l in ls for a in abs_arguments(l)]
+    if len(set(args)) < len(args):
+        return True
+    for l in ls:
+        if "abs(" in l:
+            continue
+        try:
+            lt, c, rt = U.split_line(l)
+        except U.OutsideClass:
+            continue
+        if rt == "0" and lt in args and c in ("lt", "le", "gt", "ge"):
+            return True
+    return False
+
+
+def _names_in(node):
+    import ast
+    return [x.id for x in ast.walk(node) if isinstance(x, ast.Name)]
+
+
+# ------------------------------------------------------------------ stream: solvex (over- / under-determined, inconsistent, tautological
+# systems, more than ten named variables)
+def gen_solvex_case(rng):
+    cls = rng.choice(["over", "over", "over", "under", "under", "under", "inconsistent", "tautology", "many", "many", "many"])
+    kind = rng.choice(["int", "int", "dyadic"])
+    if cls == "many":
+        n = rng.choice([11, 12, 13])
+        if rng.random() < 0.3:
+            variables, names = "x", ["x%d" % i for i in range(n)]
+        else:
+            names = list(rng.choice(X.MANY_NAMES))[:n]; variables = list(names); n = len(names)
+        m = rng.choice([1, 1, 2])
+    else:
+        n = {"over": rng.choice([1, 2, 2, 3]), "under": rng.choice([3, 4, 5]), "inconsistent": rng.choice([1, 2, 2]),
+             "tautology": rng.choice([1, 2, 2])}[cls]
+        variables, names = gen_names(rng, n)
+        if cls in ("inconsistent", "tautology") and not dense_names(variables, names):
+            # (no solution -> mystic falls back to _solve_nonlinear, which lists all permutations of x0..x<max index>)
+            variables, names = "x", ["x%d" % i for i in range(n)]
+        m = {"over": n + rng.choice([1, 1, 2]), "under": rng.choice([1, 2]), "inconsistent": rng.choice([1, 2, 2]),
+             "tautology": rng.choice([0, 0, 1])}[cls]
+    pool = [0, 0, 1, -1, 2, -2, 3, 5] if kind == "int" else [0, 0, 1.0, -1.0, 2.0, 0.5, -0.5, 4.0]
+    A = [[rng.choice(pool) for _ in range(n)] for _ in range(m)]
+    if cls == "many":
+        A = [[0] * n for _ in range(m)]
+        for row in A:
+            for j in rng.sample(range(10, n), rng.randint(1, min(2, n - 10))) + rng.sample([0, 1, 1, 2, 9], rng.randint(1, 2)):
+                row[j] = rng.choice([v for v in pool if v != 0])
+    for row in A:
+        if all(v == 0 for v in row):
+            row[rng.randrange(n)] = pool[2]
+    x = [Fr(rng.randint(-4, 4)) for _ in range(n)]
+    b = [sum(Fr(v) * xv for v, xv in zip(row, x)) for row in A]
+    if cls == "over" and rng.random() < 0.4 and len(A) >= 3:   # a redundant copy too
+        k = rng.choice([2, -1]); A[-1] = [k * v for v in A[0]]; b[-1] = k * b[0]
+    if cls == "inconsistent":
+        k = rng.choice([1, 2, -1]) if kind == "int" else rng.choice([1.0, 2.0, -1.0])
+        i = rng.randrange(len(A))
+        A.append([k * v for v in A[i]]); b.append(Fr(k) * b[i] + rng.choice([1, -1, 2]))
+        if rng.random() < 0.5:
+            j = rng.randrange(len(A)); A[j], A[-1] = A[-1], A[j]; b[j], b[-1] = b[-1], b[j]
+    lines = []
+    for row, bb in zip(A, b):
+        nz = [j for j in range(n) if row[j] != 0]
+        rng.shuffle(nz)
+        cut = rng.randint(1, len(nz))
+        L = X.join(rng, [X.fmt_term(row[j], names[j]) for j in nz[:cut]])
+        rt = [X.fmt_term(-row[j], names[j]) for j in nz[cut:]]
+        bv = int(bb) if kind == "int" else float(bb)
+        R = X.join(rng, rt, bv) if (rt and bv != 0) or rt else repr(bv)
+        lines.append("%s = %s" % (L, R))
+    if cls == "tautology":
+        j = rng.randrange(n)
+        t = rng.choice(["%s = %s" % (names[j], names[j]), "2*%s - %s = %s" % (names[j], names[j], names[j]), "0*%s = 0" % names[j]])
+        lines.insert(rng.randint(0, len(lines)), t)
+    kw = {}
+    if cls == "many" and rng.random() < 0.5:
+        used = [j for j in range(n) if any(row[j] != 0 for row in A)]
+        kw["target"] = [names[rng.choice([j for j in used if j >= 10] or used)]]
+    elif cls in ("under", "over") and rng.random() < 0.3 and dense_names(variables, names):
+        t = list(names); rng.shuffle(t); kw["target"] = t[:rng.randint(1, n)]
+    return {"variables": variables, "names": names, "text": "\n".join(lines), "kind": kind, "kw": kw, "redundant": False, "cls": cls}
+
+
+def prep_solvex(rng, hist, stream_id):
+    from mystic import symbolic as S
+    g = gen_solvex_case(rng)
+    names = g["names"]; n = len(names); cls = g["cls"]
+    in_lines = U.lines_of(g["text"])
+    in_items = [U.translate_line(l, names) for l in in_lines]
+    in_tls = check_translation(in_lines, in_items, names, rng)
+    common.seed_mystic(rng)
+    try:
+        out = guarded(S.solve, g["text"], variables=g["variables"], _limit=5, **g["kw"])
+    except Exception as exc:
+        key = "solvex:%s:raises:%s" % (cls, type(exc).__name__)
+        hist[key] = hist.get(key, 0) + 1
+        return None
+    fi = [U.eq_form(it) for it in in_items]
+    rk = U.rank([f[1:] for f in fi]); rka = U.rank([f[1:] + [f[0]] for f in fi])
+    consistent = rk == rka
+    form = "None" if out is None else ("empty" if isinstance(out, str) and not out.strip() else ("text" if isinstance(out, str) else type(out).__name__))
+    key = "solvex:%s:%s:returns-%s" % (cls, "consistent" if consistent else "inconsistent", form)
+    hist[key] = hist.get(key, 0) + 1
+    rec = {"stream": "solvex", "id": stream_id, "gen": g, "in_lines": in_lines, "in_items": in_items, "in_tls": in_tls,
+           "out": out, "names": names, "lines": [], "consistent": consistent, "rk": rk, "form": form}
+    if form != "text":
+        return rec
+    rec["exact"] = exact_regime([g["kind"]], g["text"], [out])
+    try:
+        out_lines = U.lines_of(out)
+        tl = [U.TextLine(l) for l in out_lines]
+        bad = sorted(set(nm for t in tl for node in (t.l, t.r) for nm in _names_in(node) if nm not in names))
+        if bad:
+            rec["foreign"] = bad
+            return rec
+        out_items = [U.translate_line(l, names) for l in out_lines]
+        if any(it[0] != "lin" or it[1] != "eq" for it in out_items):
+            raise U.OutsideClass("not a linear equality")
+        rec["out_tls"] = check_translation(out_lines, out_items, names, rng)
+    except U.OutsideClass as e:
+        rec["unparsed"] = str(e)
+        return rec
+    rec["out_items"] = out_items
+    if consistent:
+        fo = [U.eq_form(it) for it in out_items]
+        A = [U.comb_coeffs(fi, f) for f in fo]
+        B = [U.comb_coeffs(fo, f) for f in fi]
+        rec["cert"] = None not in A and None not in B
+        if rec["cert"]:
+            rec["lines"].append("C12 cert (inp %s) (out %s) (A %s) (B %s)" % (U.plines(in_items), U.plines(out_items), U.pmat(A), U.pmat(B)))
+    return rec
+
+
+def post_solvex(rec, replies, rng, hist, findings):
+    g = rec["gen"]; names = rec["names"]; n = len(names); cls = g["cls"]
+    case = {"stream": "solvex", "id": rec["id"], "class": cls,
+            "call": "solve(%r, variables=%r%s)" % (g["text"], g["variables"], "".join(", %s=%r" % kv for kv in g["kw"].items())),
+            "returned": rec["out"], "requests": rec["lines"]}
+    if "foreign" in rec:
+        findings.append(Finding("monitor", KF_RESTORE, "the returned text mentions %r, which is not among the variables %r" % (rec["foreign"], names), case))
+        return True
+    if not rec["consistent"]:
+        # outside the property (it speaks about consistent systems): only the class of what comes back is counted
+        if rec["form"] == "text" and "out_items" in rec:
+            fi = [U.eq_form(it) for it in rec["in_items"]]
+            lhs = solved_form_ok(rec["out_items"], n)
+            sub = "unknown"
+            if lhs is not None:
+                pt = [Fr(rng.randint(-9, 9), rng.choice([1, 2])) for _ in range(n)]
+                for it, i in zip(rec["out_items"], lhs):
+                    pt[i] = U.f_eval(it[3], pt)
+                ok = [U.f_eval(f, pt) == 0 for f in fi]
+                sub = "solves-%d-of-%d-equations" % (sum(ok), len(ok))
+            hist["solvex:inconsistent:solved-form:" + sub] = hist.get("solvex:inconsistent:solved-form:" + sub, 0) + 1
+        return False
+    if rec["form"] in ("empty", "None"):
+        if rec["rk"] > 0:
+            findings.append(Finding("monitor", "solve/no-result/consistent-system",
+                                    "solve returned %r for a consistent system of rank %d" % (rec["out"], rec["rk"]), case))
+        else:
+            hist["solvex:tautology:empty-solved-form"] = hist.get("solvex:tautology:empty-solved-form", 0) + 1
+        return False
+    if rec["form"] != "text":
+        findings.append(Finding("monitor", "solve/not-a-linear-solved-form", "solve returned %r" % (rec["out"],), case))
+        return False
+    g2 = dict(g); rec2 = dict(rec, gen=g2, stream="solve")
+    before = len(findings)
+    nt = post_solve(rec2, replies, rng, hist, findings)
+    for f in findings[before:]:
+        f["case"]["stream"] = "solvex"; f["case"]["class"] = cls
+    return nt
+
+
 # ------------------------------------------------------------------ stream: merge / _flip (literal models)
 INV = {"lt": "<", "le": "<=", "gt": ">", "ge": ">=", "eq": "=", "ne": "!="}
 
@@ -1079,8 +1579,11 @@ def prep_merge(rng, hist, stream_id):
     else:
         got = set()
         for t in out:
-            l, c, r = U.split_line(t)
-            got.add(([s[0] for s in sides].index(l), c))
+            try:
+                l, c, r = U.split_line(t)
+                got.add(([s[0] for s in sides].index(l), c))
+            except (U.OutsideClass, ValueError):
+                got.add((-1, t))
     line = "C12 merge (inclusive %s) (eqs (%s))" % ("true" if incl else "false", " ".join("(%d %s)" % (e, c) for e, c in tl))
     return {"stream": "merge", "id": stream_id, "tl": tl, "incl": incl, "texts": texts, "out": out, "got": got, "lines": [line]}
 
@@ -1121,14 +1624,115 @@ def flip_cases():
     return findings, len(lines)
 
 
+CTOK = {"<=": "le", "<": "lt", ">=": "ge", ">": "gt", "!=": "ne", "==": "eqeq", "=": "eq"}
+CTOK_ORDER = ["<=", "<", ">=", ">", "!=", "==", "="]
+
+
+def core_cases():
+    """finite tables, exhaustively: comparator (every single comparator text, every ordered pair, none), equals
+    (before / after in {True, False, ZeroDivisionError} x error flag x comparator) with the flip decision of _simplify1,
+    flip(bounds=True) on a line, merge (both tables) on EVERY list of <= 2 lines over two texts and <= 3 over one"""
+    import itertools
+    from mystic import symbolic as S
+    findings = []; hist = {}
+    lines = []; checks = []
+    # ---- comparator
+    texts = ["2*x0 + x1"] + ["2*x0 - x1 %s 3" % t for t in CTOK_ORDER] + \
+            ["x0 %s x1 %s 3" % (a, b) for a in CTOK_ORDER for b in CTOK_ORDER] + ["x0 %s 3 - x1%s" % (a, a) for a in CTOK_ORDER]
+    for t in texts:
+        flags = ["true" if tok in t else "false" for tok in CTOK_ORDER]
+        lines.append("C12 comparator (toks (%s))" % " ".join(flags))
+        got = S.comparator(t)
+        checks.append(("comparator", t, CTOK.get(got, "none")))
+    for tok in CTOK_ORDER:     # monitor: a line with one comparator text
+        if S.comparator("2*x0 - x1 %s 3" % tok) != tok:
+            findings.append(Finding("monitor", "comparator/single-token", "comparator(%r) = %r" % ("2*x0 - x1 %s 3" % tok, S.comparator("2*x0 - x1 %s 3" % tok)),
+                                    {"stream": "core", "text": "2*x0 - x1 %s 3" % tok}))
+    # ---- equals + flip decision
+    TXT = {"true": ["x0 %s 1", {"<": "x0 < 1", "<=": "x0 <= 1", ">": "x0 > -1", ">=": "x0 >= -1"}],
+           "false": [None, {"<": "x0 < -1", "<=": "x0 <= -1", ">": "x0 > 1", ">=": "x0 >= 1"}],
+           "zde": [None, {"<": "1/x1 < 1", "<=": "x0/x1 <= 1", ">": "1/(2*x1) > 1", ">=": "3/x1 >= 1"}]}
+    for cmp in ["<", "<=", ">", ">="]:
+        for bk in ("true", "false", "zde"):
+            for ak in ("true", "false", "zde"):
+                for errors in (True, False):
+                    before = TXT[bk][1][cmp]; after = TXT[ak][1][cmp]
+                    try:
+                        res = S.equals(before, after, {"x0": 0.0, "x1": 0.0}, error=errors, variables="x")
+                        res = "true" if res is True else ("false" if res is False else repr(res))
+                    except ZeroDivisionError:
+                        res = "zde"
+                    lines.append("C12 equals (errors %s) (before %s) (after %s) (cmp %s)" % ("true" if errors else "false", bk, ak, U.CMP_NAME[cmp]))
+                    checks.append(("equals", (before, after, errors), res))
+                    # monitor (the specification of equals on evaluable texts): agreement of the two truth values
+                    if bk != "zde" and ak != "zde" and res != ("true" if bk == ak else "false"):
+                        findings.append(Finding("monitor", "equals/truth-values", "equals(%r, %r) = %s" % (before, after, res), {"stream": "core", "before": before, "after": after}))
+                    # monitor (docstring: "error: if False, ZeroDivisionError evaluates as None"; default: the error propagates)
+                    if (bk == "zde" or ak == "zde") and res != ("zde" if errors else ("true" if bk == ak else "false")):
+                        findings.append(Finding("monitor", "equals/zero-division", "equals(%r, %r, x0=0, x1=0, error=%r) = %s" % (before, after, errors, res),
+                                                {"stream": "core", "before": before, "after": after, "error": errors}))
+    # ---- merge, exhaustively
+    sides = [("A", "0"), ("B - 1", "C")]
+    cm = ["lt", "le", "gt", "ge", "eq", "ne"]
+    alph1 = [(0, c) for c in cm]; alph2 = alph1 + [(1, c) for c in cm]
+    lists = [list(t) for k in (1, 2) for t in itertools.product(alph2, repeat=k)] + [list(t) for t in itertools.product(alph1, repeat=3)]
+    for tl in lists:
+        for incl in (True, False):
+            txt = ["%s %s %s" % (sides[e][0], INV[c], sides[e][1]) for e, c in tl]
+            out = S.merge(*txt, inclusive=incl)
+            try:
+                got = None if out is None else set((([x[0] for x in sides].index(U.split_line(t)[0])), U.split_line(t)[1]) for t in out)
+            except (U.OutsideClass, ValueError):
+                findings.append(Finding("monitor", "merge/unreadable-output", "merge(*%r, inclusive=%r) = %r" % (txt, incl, out), {"stream": "core", "texts": txt}))
+                continue
+            lines.append("C12 merge (inclusive %s) (eqs (%s))" % ("true" if incl else "false", " ".join("(%d %s)" % (e, c) for e, c in tl)))
+            checks.append(("merge", (txt, incl), got))
+            # monitor (property of the exclusive table on the abstract level): the result is implied by the lines' conjunction and implies it
+            if not incl:
+                for A in (Fr(-1), Fr(0), Fr(1)):
+                    for BC in ((Fr(0), Fr(0)), (Fr(2), Fr(0)), (Fr(0), Fr(2))):
+                        val = {0: (A, Fr(0)), 1: (BC[0] - 1, BC[1])}
+                        want = all(U.cmp_holds(c, *val[e]) for e, c in tl)
+                        have = False if got is None else all(U.cmp_holds(c, *val[e]) for e, c in got)
+                        if want != have:
+                            findings.append(Finding("monitor", "merge/exclusive-changes-the-conjunction",
+                                                    "merge(*%r, inclusive=False) = %r: lines hold=%r, result holds=%r at A=%s B=%s C=%s" % (txt, out, want, have, A, BC[0], BC[1]),
+                                                    {"stream": "core", "texts": txt}))
+                            break
+                    else:
+                        continue
+                    break
+    reps = leandrv.run_driver(lines)
+    for (what, arg, got), rep in zip(checks, reps):
+        r = parse_reply(rep)
+        hist["core:" + what] = hist.get("core:" + what, 0) + 1
+        if what == "comparator":
+            model = r[1]["cmp"]
+        elif what == "equals":
+            model = r[1]["res"]
+        else:
+            model = None if "none" in r[2] else set((int(t[0]), t[1]) for t in r[1]["out"])
+        if model != got:
+            findings.append(Finding("correspondence", "%s/model-diverges" % what, "%s%r = %r, the Lean model %s" % (what, arg, got, rep), {"stream": "core", "what": what, "arg": repr(arg)}))
+    # ---- flip(bounds=True) on a line
+    for c in CMP_TEXT:
+        t = "2*x0 - x1 %s 3" % c
+        want = {"<": ">=", "<=": ">", ">": "<=", ">=": "<"}.get(c, c)
+        if S.flip(t, bounds=True) != "2*x0 - x1 %s 3" % want:
+            findings.append(Finding("monitor", "flip/bounds-is-the-complement", "flip(%r, bounds=True) = %r" % (t, S.flip(t, bounds=True)), {"stream": "core", "text": t}))
+    return findings, len(lines), hist
+
+
 # ------------------------------------------------------------------ shard
 STREAMS = {"simplify": (prep_simplify, post_simplify), "solve": (prep_solve, post_solve), "matrix": (prep_matrix, post_matrix),
-           "bounds": (prep_bounds, post_bounds), "merge": (prep_merge, post_merge)}
+           "bounds": (prep_bounds, post_bounds), "merge": (prep_merge, post_merge),
+           "simplifyx": (prep_simplifyx, post_simplifyx), "solvex": (prep_solvex, post_solvex)}
 
 
 def plan(ncases):
     return [("simplify", ncases), ("solve", max(1, ncases // 3)), ("matrix", max(1, ncases // 3)),
-            ("bounds", max(1, ncases // 3)), ("merge", max(1, ncases // 2))]
+            ("bounds", max(1, ncases // 3)), ("merge", max(1, ncases // 2)),
+            ("simplifyx", max(1, ncases // 2)), ("solvex", max(1, ncases // 4))]
 
 
 def run_cases(ids, hist, findings):
@@ -1166,6 +1770,9 @@ def run_shard(pid, seed, shard, ncases, tier, extra):
         ff, n = flip_cases()
         findings.extend(ff); nl += n; ev += n
         hist["_flip:exhaustive"] = n
+        ff, n, h2 = core_cases()
+        findings.extend(ff); nl += n; ev += n
+        hist.update(h2)
     return {"evaluations": ev, "nontrivial": nt, "model_lines": nl, "findings": findings, "samples": samples, "hist": hist}
 
 
@@ -1207,6 +1814,30 @@ def witnesses():
         if a != b:
             findings.append(Finding("monitor", KF_REDUNDANT, "solve(%r) = %r: input holds=%r, result holds=%r at x=%s" % (w, out, a, b, pt_json(pt)),
                                     {"stream": "witness", "call": "solve(%r)" % w, "returned": out, "point": pt_json(pt)}))
+    # F42: float coefficients, redundant equations: lines that are not back-substituted
+    w = "0.5*x2 + 2.0*x0 - 0.5*x1 = -4.0\n-0.5*x2 - x0 = 3.0\n4.0*x0 = x1 - 6.0\n2.0*x2 + x1 + 2.0*x0 = -10.0"
+    with contextlib.redirect_stdout(io.StringIO()):
+        out = S.solve(w)
+    if isinstance(out, str) and out.strip():
+        try:
+            its = [U.translate_line(l, ["x0", "x1", "x2"]) for l in U.lines_of(out)]
+            if solved_form_ok(its, 3) is None and isolated_vars(its, 3) is not None:
+                findings.append(Finding("monitor", KF_TRIANGULAR, "solve(%r) = %r: not back-substituted" % (w, out), {"stream": "witness", "call": "solve(%r)" % w, "returned": out}))
+        except U.OutsideClass:
+            pass
+    # F41: more than ten named variables, `_10` restored by the replacement for `_1`
+    nm = ["p", "q", "r", "s", "t", "u", "w", "y", "z", "aa", "bb", "cc"]
+    for fn, w, kw in ((S.solve, "bb - q = 3", {"target": ["bb"]}), (S.simplify, "bb - q = 3\np >= 1", {"target": ["bb"], "all": True})):
+        try:
+            with contextlib.redirect_stdout(io.StringIO()):
+                out = fn(w, variables=list(nm), **kw)
+        except Exception:
+            continue
+        if isinstance(out, str):
+            bad = sorted(set(x for l in U.lines_of(out) for t in [U.TextLine(l)] for node in (t.l, t.r) for x in _names_in(node) if x not in nm))
+            if bad:
+                findings.append(Finding("monitor", KF_RESTORE, "%s(%r, variables=%r, %s) = %r mentions %r, which are not variables" % (fn.__name__, w, nm, kw, out, bad),
+                                        {"stream": "witness", "call": "%s(%r, variables=%r, **%r)" % (fn.__name__, w, nm, kw), "returned": out}))
     return findings
 
 
@@ -1221,7 +1852,16 @@ RULE = ("cases: simplify(all=True) on 1-4 (5 with an added pair) lines over 1-5 
         "bounds with a finite side; merge that changed its input. exact regime = integer / binary-exact coefficients and no printed literal "
         "with >= 14 significant digits: there the Lean validator must ACCEPT, and any point (incl. exact boundary points) separating input "
         "and output is a failing input; toleranced regime = sample points farther than 1e-6 (relative) from every boundary only, "
-        "plus the python twin of the validator with relative tolerance 1e-9 (reported in the histogram).")
+        "plus the python twin of the validator with relative tolerance 1e-9 (reported in the histogram). "
+        "SECOND LAYER (stream simplifyx, Lean validateX): rational lines whose divisor is affine in 2-3 variables; divisors "
+        "(a*x_i+b)*(c*x_j+d) (four sign cases; the monomial x_i*x_j is an extra variable of the linear forms); lines with one or two "
+        "abs(affine) terms incl. abs on the right side and abs(..)/x_k (absval pre-pass); chained systems of equalities and inequalities "
+        "sharing variables; keywords all=False (monitor: the answer is one of the cases of all=True), rand=, target= with a single name, "
+        "variables= with unused extra names, cycle=; 11-13 variables, x-indexed or a list of names (F41). Stream solvex: over-determined, "
+        "under-determined, inconsistent (outside the property: classes counted only), tautological systems, 11-13 named variables. "
+        "core tables, exhaustively on shard 0: comparator on every single comparator text / ordered pair / none, equals on "
+        "{True, False, ZeroDivisionError}^2 x error flag x comparator, flip(bounds=True), merge (both tables) on every list of <= 2 lines "
+        "over two texts and of 3 lines over one text. non-trivial (simplifyx) = >= 2 cases, or a chained / many-variable system.")
 
 
 def main(tier, seed):
@@ -1241,7 +1881,10 @@ def main(tier, seed):
           "random points with an independent interpreter of the text (python ast + Fraction)",
           "the reading of a text line: python precedence via ast; a float literal denotes the binary64 python would use, an integer "
           "literal the integer; a ZeroDivisionError means 'not satisfied'",
-          "merge / _flip: literal Lean models tied to the code by differential comparison (sets of lines)",
+          "merge / _flip / comparator / equals (+ the flip decision of _simplify1): literal Lean models tied to the code by differential "
+          "comparison, exhaustively over the finite tables",
+          "validateX (Model/Symbolic2.lean): absolute values and product divisors; for a product divisor the theorem is about points of the "
+          "extended space in which the extra variable equals the monomial it stands for, which every real point extends to uniquely",
           "sympy and the string surgery inside simplify/solve are NOT modelled: their output is validated per run, nothing is proved about them"]
     assumptions = ["theorems are about real-closed-free ordered-field semantics; binary64 rounding of the evaluation of a constraint is outside the property",
                    "general float coefficients make sympy print 15-digit roundings: those cases are only checked away from the boundaries (toleranced stream)",
@@ -1257,7 +1900,9 @@ def replay(path):
     case = data.get("case") or (data.get("correspondence_not_checking") or [{}])[0].get("case", {})
     cid = case.get("id")
     findings = []; hist = {}
-    if case.get("stream") == "witness" or cid is None:
+    if case.get("stream") in ("core", "flip"):
+        findings = core_cases()[0] + flip_cases()[0]
+    elif case.get("stream") == "witness" or cid is None:
         findings = witnesses()
     else:
         run_cases([(cid["stream"], cid["seed"], cid["shard"], cid["k"])], hist, findings)
